@@ -81,7 +81,7 @@ pub fn eval_hist(case: &Case) -> Driver {
 pub fn evaluate(prop: &str, case: &Case, fault: &Fault) -> Vec<Failure> {
     match fault {
         Fault::None => {
-            let d = if prop == "C04" || prop == "C17" || prop == "C12" {
+            let d = if prop == "C04" || prop == "C17" || prop == "C12" || prop == "C01" {
                 let mut d = Driver::new(case);
                 d.lenient = true;
                 d.lenient_io = prop == "C17";
